@@ -27,6 +27,14 @@ crlf     : quoted cells with embedded '\\r\\n', lone '\\r', '\\n', mixtures and 
 short    : EVERY data record shorter than the header: header widths 2..5 (names 'id', 'name', 'comment', '', 'id'), 1..3 records,
            every pattern of record lengths 0..width-1 (blank lines included; header followed by blank lines only with all
            three terminators), delimiters x path / StringIO  -> still one column per header cell, None padded.
+unidigit : cell texts made of NON-ASCII digit characters and other numeric look-alikes ('²', '¹⁰', '①', '½', '1²' - str.isdigit() /
+           isnumeric() say yes, int() says no -> strings; '١٢٣', '１２', '१२', '-١', '٣.٥' - int() / float() accept them -> 123, 12, 12,
+           -1, 3.5; '1_000', '+5', '.5', '0x10', 'infinity', padded ' ² '): the cell rule is what int() / float() ACCEPT, and read_csv
+           never raises.  Grids 1x1, 2x1, 1x2 over the 16 texts + 4 ASCII texts (thorough: 3x1 over 9), with / without header,
+           all delimiters x path / StringIO on 1x1 and a 2x1 subset, and as header cells (named verbatim).
+onecol   : ONE-column files with blank lines inside / at the end of the data: 1..4 records, each a blank line (a zero-field record) or
+           one of 5 cells, every pattern, with header and header-less (first record non-blank), terminators x delimiters x
+           path / StringIO: a zero-field record is a record -> one row, cell None.
 """
 import atexit
 import csv
@@ -104,6 +112,76 @@ def cases(tier, seed):
     yield from cases_v1(tier, seed)
     yield from crlf_cases(tier)
     yield from short_cases(tier)
+    yield from unidigit_cases(tier)
+    yield from onecol_cases(tier)
+
+
+# ---------------------------------------------------------------------------------------------
+# cells of non-ASCII digit characters: the rule is what int() / float() accept, not str.isdigit() / isnumeric() / a regex
+# ---------------------------------------------------------------------------------------------
+UNI_CELLS = ['\u00b2', '\u00b9\u2070', '\u2460', '\u0661\u0662\u0663', '\uff11\uff12', '\u0663.\u0665', '\u00bd', '-\u0661', '1\u00b2',
+             '\u0967\u0968', ' \u00b2 ', '1_000', '+5', '.5', '0x10', 'infinity']
+UNI_ASCII = ['1', '', 'abc', '1.5']
+assert [t.isdigit() for t in UNI_CELLS[:3]] == [True, True, True]
+
+
+def _accepts(fn, text):
+    try:
+        fn(text)
+        return True
+    except ValueError:
+        return False
+
+
+# the texts are what this block says they are (under this interpreter): digits for str.isdigit(), not for int(); or the converse
+assert not any(_accepts(int, t) or _accepts(float, t) for t in UNI_CELLS[:3] + [UNI_CELLS[6], UNI_CELLS[8]])
+assert int(UNI_CELLS[3]) == 123 and int(UNI_CELLS[4]) == 12 and float(UNI_CELLS[5]) == 3.5 and int(UNI_CELLS[7]) == -1 and int(UNI_CELLS[9]) == 12
+
+
+def unidigit_cases(tier):
+    q = tier == 'quick'
+    alpha = UNI_CELLS + UNI_ASCII
+    n = 0
+    for nrec, width in [(1, 1), (2, 1), (1, 2)] + ([] if q else [(3, 1)]):
+        for g in grids(alpha if nrec < 3 else UNI_CELLS[:7] + ['1', ''], nrec, width):
+            if not any(c in UNI_CELLS for rec in g for c in rec):
+                continue
+            n += 1
+            yield {'op': 'grid', 'grid': g, 'header': default_header(width) if n % 2 else None, 'delim': ',', 'input': 'sio', 'uni': True}
+    for g in list(grids(UNI_CELLS, 1, 1)) + [[[a], [b]] for a in UNI_CELLS[:8] for b in (UNI_CELLS[:5] if q else UNI_CELLS)]:
+        for d in DELIMS:
+            for inp in ('sio', 'path'):
+                for hh in (True, False):
+                    if d == ',' and inp == 'sio':
+                        continue
+                    yield {'op': 'grid', 'grid': g, 'header': default_header(1) if hh else None, 'delim': d, 'input': inp, 'uni': True}
+    for hdr in itertools.product(UNI_CELLS[:5] + ['a'], repeat=2):
+        yield {'op': 'grid', 'grid': [['1', UNI_CELLS[0]], [UNI_CELLS[3], '']], 'header': list(hdr), 'delim': ',', 'input': 'sio', 'uni': True}
+
+
+# ---------------------------------------------------------------------------------------------
+# one-column files: a blank line inside the data is a zero-field record, i.e. a row whose only cell is None
+# ---------------------------------------------------------------------------------------------
+ONECOL_CELLS = ['1', 'abc', '', ' ', '2.5']
+
+
+def onecol_cases(tier):
+    q = tier == 'quick'
+    choices = [None] + ONECOL_CELLS                       # None: a blank line (zero fields)
+    for nrec in (1, 2, 3) if q else (1, 2, 3, 4):
+        for combo in itertools.product(choices, repeat=nrec):
+            if all(c is not None for c in combo):
+                continue                                  # no blank line: the ordinary grids
+            g = [[] if c is None else [c] for c in combo]
+            few = nrec >= 3
+            for hh in (True, False):
+                if not hh and combo[0] is None:
+                    continue                              # header-less: the first record fixes the width (not decided for a blank one)
+                for d in ([','] if few else DELIMS):
+                    for inp in ('sio', 'path'):
+                        for lt in (TERMINATORS if (not few or not q) else ['\r\n', '\n']):
+                            yield {'op': 'grid', 'grid': g, 'header': ['id'] if hh else None, 'delim': d, 'input': inp, 'width': 1, 'lt': lt,
+                                   'onecol': True}
 
 
 def cases_v1(tier, seed):
@@ -364,12 +442,23 @@ def evaluate(case):
     jag = any(len(rec) < width for rec in grid)
     desc = f'read_csv({text!r}, has_header={has_header}, {where})'
 
+    family = ':non-ascii-digits' if case.get('uni') else ':one-column-blank-line' if case.get('onecol') else ''
     try:
         t = run_read(text, delim, has_header, inp)
     except Exception as e:
-        return [Fail('C19:read_csv:raises' + (':jagged' if jag else ''), f'{desc} raised {type(e).__name__}: {e}', 'a table',
+        return [Fail('C19:read_csv:raises' + (family or (':jagged' if jag else '')), f'{desc} raised {type(e).__name__}: {e}', 'a table',
                      type(e).__name__)]
-    return check_table(t, names, grid, width, want_cols, desc, has_header, jag)
+    fails = check_table(t, names, grid, width, want_cols, desc, has_header, jag)
+    if case.get('uni'):
+        for f in fails:
+            if f['key'].startswith('C19:read_csv:cell:expected-'):
+                f['key'] += ':non-ascii-digit-or-look-alike-text'
+    if case.get('onecol'):
+        for f in fails:
+            if f['key'] == 'C19:read_csv:row-count:jagged':
+                f['key'] = 'C19:read_csv:row-count:one-column-blank-line'
+                f['what'] += ' (a blank line in a one-column file is a zero-field record: one row, cell None)'
+    return fails
 
 
 def nontrivial(case):
@@ -380,6 +469,10 @@ def nontrivial(case):
         return ('crlf', brk, case['lt'], case['delim'], case['header'] is None, (len(case['grid']), len(case['grid'][0])))
     if case['op'] != 'grid':
         return (case['op'], case['delim'], case['input'])
+    if case.get('onecol'):
+        return ('onecol', tuple(len(r) for r in case['grid']), case['delim'], case['input'], case.get('lt'), case['header'] is None)
+    if case.get('uni'):
+        return ('uni', str(case['grid']), case['delim'], case['input'], case['header'] is None)
     if case.get('short'):
         return ('short', tuple(len(r) for r in case['grid']), case['width'], case['delim'], case['input'], case.get('lt'))
     kinds = tuple(sorted({kind_of(cell_value(c)) for rec in case['grid'] for c in rec}))
@@ -395,9 +488,12 @@ if __name__ == '__main__':
               'delimiter x has_header x path/StringIO matrix on grids up to 2x2, every truncation pattern of records (jagged), every '
               'header over a 5-name alphabet incl. repeats, empty and header-only input; quoted cells with embedded CRLF / CR / LF read '
               'from a path (file written in binary mode) and from a newline=\'\' stream, compared with each other and with csv.reader; '
-              'every record-length pattern with ALL records shorter than a 2..5 cell header; oracle = int/float/str/None rule of the '
+              'every record-length pattern with ALL records shorter than a 2..5 cell header; cells of non-ASCII digit characters and other '
+              'numeric look-alikes (decided by what int()/float() accept; never raises); one-column files with blank lines among <= 3 (4) records; oracle = int/float/str/None rule of the '
               'statement + Vector(values).schema(). distinct = (value kinds present, quoting needed, jag pattern, options)',
          bound=lambda tier: {'cell_texts': len(CELLS), 'max_shape': '2x3' if tier == 'quick' else '3x3',
                              'full_alphabet_shapes': ['1x1', '2x1', '1x2', '2x2', '1x3'] + ([] if tier == 'quick' else ['3x1']),
-                             'reduced_alphabet_shapes': {'2x3': 4} if tier == 'quick' else {'2x3': 7, '3x2': 6, '3x3': 4}},
+                             'reduced_alphabet_shapes': {'2x3': 4} if tier == 'quick' else {'2x3': 7, '3x2': 6, '3x3': 4},
+                             'unidigit_texts': [ascii(c) for c in UNI_CELLS], 'unidigit_shapes': ['1x1', '2x1', '1x2'] + ([] if tier == 'quick' else ['3x1']),
+                             'onecol_max_records': 3 if tier == 'quick' else 4, 'onecol_cells': ONECOL_CELLS},
          nontrivial=nontrivial)
